@@ -350,6 +350,75 @@ fn ladder(ctx: &Ctx, rep: &mut Report) {
             rep.add("ladder_stuffing_codes_parsed", total as u64);
         }
     }
+    // one reader probed by two differently configured instances: what instance B decodes from a reader must not
+    // depend on an earlier (failed) attempt of instance A on the same reader - state belongs to instances, and a
+    // failed call leaves the reader where it was
+    for k in 0..24u64 {
+        let mut r2 = Rng::new(ctx.seed ^ 0xC17AE, k);
+        let v = (k % 2) as u8;
+        let cfg = gen_cfg(&mut r2, Flavour::Sor(v), 16 + 16 * (k as usize % 3), 16 + 16 * (k as usize % 2));
+        let pic = gen_reference(&mut r2, &cfg).encode();
+        let mut fresh = Dec::new(true, false);
+        let of = fresh.decode(&pic);
+        let want = digest_call(&fresh, &of);
+        let mut a = Dec::new(false, k % 4 >= 2);
+        let mut b = Dec::new(true, false);
+        let r = crate::util::catch(|| {
+            let mut rd = h263_rs::parser::H263Reader::from_source(&pic[..]);
+            let oa = a.decode_with(&mut rd);
+            let ob = b.decode_with(&mut rd);
+            (oa, ob)
+        });
+        rep.evaluations += 1;
+        match r {
+            Err(p) => rep.violation(format!("panic@{}", p.loc), format!("shared reader probed by two instances panicked: {}", p.msg), J::obj().set("property", "C17").set("seed", ctx.seed).set("kind", "ladder")),
+            Ok((oa, ob)) => {
+                if digest_call(&b, &ob) != want {
+                    rep.violation("ladder/reader-probed-by-another-instance", format!("a Sorenson v{} picture decodes to something else ({}) when a standard-mode instance has tried the same reader first (its attempt: {})", v, ob.short(), oa.short()), J::obj().set("property", "C17").set("seed", ctx.seed).set("kind", "ladder"));
+                } else {
+                    rep.count("ladder_reader_probed_by_another_instance_equal");
+                }
+            }
+        }
+    }
+    // a source that is slow: one read call sleeps for 2.6 s in the middle of a picture (decoding is a function of
+    // the bytes, not of how long they take to arrive)
+    {
+        let mut r2 = Rng::new(ctx.seed ^ 0xC17AF, 0);
+        let cfg = gen_cfg(&mut r2, Flavour::Sor(1), 48, 32);
+        let pic = gen_reference(&mut r2, &cfg).encode();
+        let mut fresh = Dec::new(true, false);
+        let of = fresh.decode(&pic);
+        let want = digest_call(&fresh, &of);
+        struct Slow<'a> {
+            d: &'a [u8],
+            pos: usize,
+            slept: bool,
+        }
+        impl std::io::Read for Slow<'_> {
+            fn read(&mut self, buf: &mut [u8]) -> std::io::Result<usize> {
+                if !self.slept && self.pos >= self.d.len() / 2 {
+                    self.slept = true;
+                    std::thread::sleep(std::time::Duration::from_millis(2600));
+                }
+                let n = buf.len().min(self.d.len() - self.pos).min(3);
+                buf[..n].copy_from_slice(&self.d[self.pos..self.pos + n]);
+                self.pos += n;
+                Ok(n)
+            }
+        }
+        let mut s = Dec::new(true, false);
+        let r = crate::util::catch(|| {
+            let mut rd = h263_rs::parser::H263Reader::from_source(Slow { d: &pic, pos: 0, slept: false });
+            s.decode_with(&mut rd)
+        });
+        rep.evaluations += 1;
+        match r {
+            Ok(o) if digest_call(&s, &o) == want => rep.count("ladder_slow_source_equal"),
+            Ok(o) => rep.violation("ladder/slow-source", format!("the same bytes through a source that pauses for 2.6 s in the middle give {} instead of {}", o.short(), of.short()), J::obj().set("property", "C17").set("seed", ctx.seed).set("kind", "ladder")),
+            Err(p) => rep.violation(format!("panic@{}", p.loc), format!("slow source panicked: {}", p.msg), J::obj().set("property", "C17").set("seed", ctx.seed).set("kind", "ladder")),
+        }
+    }
     // bystanders holding large pictures alive while a victim decodes
     // "fill to the brim": bystanders of decreasing picture size are added until one is refused (a
     // process-wide budget would refuse at some point) or a cap is reached (a correct decoder never refuses)
@@ -608,6 +677,8 @@ pub fn run(ctx: &Ctx) -> (Report, String) {
         rep.require("ladder_long_interleavings_equal", 28);
         rep.require("ladder_bystanders_equal", 1);
         rep.require("ladder_static_stuffed_scenes_equal", 3);
+        rep.require("ladder_reader_probed_by_another_instance_equal", 24);
+        rep.require("ladder_slow_source_equal", 1);
         rep.require("isolated_baselines_equal", n_hist as u64);
         rep.require("reverse_order_pass_equal", 1);
     }
